@@ -35,6 +35,9 @@ type e3 struct {
 	// mode "data": other personal text (dates, places, notes) must be protected in hide mode only
 	mode    string
 	ownerOf *ssa.Function // html.individualForNode
+	// edgeSucc: when set, a guard asked for at the terminator of a block is asked for on the edge to this successor
+	// (the outcome of the block's own branch test counts) - used for values flowing into a phi
+	edgeSucc *ssa.BasicBlock
 }
 
 func nodeType(t types.Type) (named *types.Named, ok bool) {
@@ -308,7 +311,11 @@ func (e *e3) guardedAt(v ssa.Value, ins ssa.Instruction) bool {
 
 func (e *e3) guardedKey(key string, ins ssa.Instruction) bool {
 	fn := ins.Parent()
-	mk := fmt.Sprintf("%s|%s|%p", e.mode, key, ins.Block())
+	mk := fmt.Sprintf("%s|%s|%p|%p", e.mode, key, ins.Block(), e.edgeSucc)
+	edgeSucc := e.edgeSucc
+	if edgeSucc != nil && ins != ins.Block().Instrs[len(ins.Block().Instrs)-1] {
+		edgeSucc = nil
+	}
 	if r, ok := e.guardMemo[mk]; ok {
 		return r
 	}
@@ -339,6 +346,17 @@ func (e *e3) guardedKey(key string, ins ssa.Instruction) bool {
 				ok = false
 				e.capped = append(e.capped, load.FuncName(fn))
 				return
+			}
+			if edgeSucc != nil {
+				if iff, isIf := b.Instrs[len(b.Instrs)-1].(*ssa.If); isIf && b.Succs[0] != b.Succs[1] {
+					cond := iff.Cond
+					if ph, isPhi := cond.(*ssa.Phi); isPhi {
+						if ev := phiEdge(ph); ev != nil {
+							cond = ev
+						}
+					}
+					e.condFacts(cond, b.Succs[0] == edgeSucc, key, &f)
+				}
 			}
 			if !f.guarded() {
 				ok = false
@@ -557,6 +575,258 @@ func (e *e3) escapePoints(v ssa.Value) []ssa.Instruction {
 	}
 	follow(v)
 	return out
+}
+
+// visibilityGuarded: on every path to ins the visibility facts alone (mode == show, mode != hide, ...) make the
+// guard hold, whoever the person is.
+func (e *e3) visibilityGuarded(ins ssa.Instruction) bool {
+	return e.guardedKey("-no person-", ins)
+}
+
+// c17Visibility (R17.c): the option parser hands out only the three documented visibilities. The guards of the
+// publisher have no default branch: any other value that got through would be treated as "show".
+func c17Visibility(p *load.Prog, r *oblig.Run, e *e3) {
+	r.Rule("R17.c", "NewLivingVisibility returns only show, hide or placeholder (anything else does not return)", 1)
+	fn := p.Func(load.PkgHTML, "NewLivingVisibility")
+	o := r.Add("R17.c", "values returned by NewLivingVisibility", "-", "visibility values that can reach the publisher")
+	if fn == nil || len(fn.Blocks) == 0 {
+		o.Unknown("html.NewLivingVisibility not found")
+		return
+	}
+	o.Pos = p.Pos(fn.Pos())
+	paths, capped := simplePaths(fn.Blocks[0], map[*ssa.BasicBlock]bool{}, 2000)
+	if capped {
+		o.Unknown("too many paths")
+		return
+	}
+	bad, n := "", 0
+	for _, path := range paths {
+		last := path[len(path)-1]
+		ret, ok := last.Instrs[len(last.Instrs)-1].(*ssa.Return)
+		if !ok || len(ret.Results) != 1 || !feasible(path) {
+			continue
+		}
+		n++
+		v := ret.Results[0]
+		if ph, isPhi := v.(*ssa.Phi); isPhi && ph.Block() == last && len(path) >= 2 {
+			for i, q := range last.Preds {
+				if q == path[len(path)-2] {
+					v = ph.Edges[i]
+				}
+			}
+		}
+		if k, isK := v.(*ssa.Const); isK && k.Value != nil {
+			if _, known := e.visConst[k.Value.ExactString()]; known {
+				continue
+			}
+			bad = "returns the constant " + k.Value.ExactString()
+			continue
+		}
+		// a non-constant value must have been compared equal to one of the constants on this path
+		eq := false
+		for i, b := range path[:len(path)-1] {
+			iff, ok := b.Instrs[len(b.Instrs)-1].(*ssa.If)
+			if !ok {
+				continue
+			}
+			bo, ok := iff.Cond.(*ssa.BinOp)
+			if !ok || bo.Op != token.EQL || path[i+1] != b.Succs[0] {
+				continue
+			}
+			k, isK := bo.Y.(*ssa.Const)
+			if !isK || k.Value == nil {
+				continue
+			}
+			strip := func(x ssa.Value) ssa.Value {
+				for {
+					switch y := x.(type) {
+					case *ssa.ChangeType:
+						x = y.X
+					case *ssa.Convert:
+						x = y.X
+					default:
+						return x
+					}
+				}
+			}
+			if _, known := e.visConst[k.Value.ExactString()]; known && strip(bo.X) == strip(v) {
+				eq = true
+			}
+		}
+		if !eq {
+			bad = "returns " + v.String() + " on a path on which that very value was not found equal to one of the three constants"
+		}
+	}
+	switch {
+	case n == 0:
+		o.Unknown("NewLivingVisibility never returns")
+	case bad != "":
+		o.Fail("NewLivingVisibility " + bad + ": a spelling such as \"Hide\" is accepted and then equals none of the constants the publisher's guards test for, so it behaves like show and living people are published although the user asked to hide them")
+	default:
+		o.OK(fmt.Sprintf("%d returning path(s), each returns a value just found equal to one of the three constants", n))
+	}
+}
+
+// flowProtected: every way the value leaves the function is protected. guard(ins) tells whether the person's guard
+// holds at ins. Where the value is merged with alternatives (phi) or wrapped into a component by a constructor, it is
+// enough that the guard holds on the incoming edge / at the constructor call, OR that everything downstream is
+// protected (a row built first and replaced by nil in hide mode before the page is assembled).
+func (e *e3) flowProtected(v ssa.Value, guard func(ssa.Instruction) bool) (bool, int) {
+	seen := map[ssa.Value]bool{}
+	nEsc := 0
+	localAlloc := func(a ssa.Value) *ssa.Alloc {
+		for i := 0; i < 6; i++ {
+			switch x := a.(type) {
+			case *ssa.Alloc:
+				return x
+			case *ssa.IndexAddr:
+				a = x.X
+			case *ssa.FieldAddr:
+				a = x.X
+			case *ssa.Slice:
+				a = x.X
+			default:
+				return nil
+			}
+		}
+		return nil
+	}
+	var follow func(v ssa.Value) bool
+	follow = func(v ssa.Value) bool {
+		if seen[v] {
+			return true
+		}
+		seen[v] = true
+		refs := v.Referrers()
+		if refs == nil {
+			return true
+		}
+		ok := true
+		esc := func(ins ssa.Instruction) {
+			nEsc++
+			if !guard(ins) {
+				ok = false
+			}
+		}
+		for _, ref := range *refs {
+			switch x := ref.(type) {
+			case *ssa.Phi:
+				// the edge this value comes in on
+				edgeOK := true
+				for i, ed := range x.Edges {
+					if ed != v || i >= len(x.Block().Preds) {
+						continue
+					}
+					pr := x.Block().Preds[i]
+					e.edgeSucc = x.Block()
+					g := guard(pr.Instrs[len(pr.Instrs)-1])
+					e.edgeSucc = nil
+					if !g {
+						edgeOK = false
+					}
+				}
+				nEsc++
+				if edgeOK {
+					continue
+				}
+				nEsc--
+				if !follow(x) {
+					ok = false
+				}
+			case *ssa.BinOp, *ssa.Slice, *ssa.Convert, *ssa.ChangeType, *ssa.ChangeInterface, *ssa.MakeInterface, *ssa.Extract, *ssa.Field, *ssa.Index, *ssa.Lookup, *ssa.TypeAssert, *ssa.Range, *ssa.Next, *ssa.IndexAddr, *ssa.FieldAddr:
+				if bo, isB := x.(*ssa.BinOp); isB && bo.Op != token.ADD {
+					continue // comparisons produce no text
+				}
+				if !follow(x.(ssa.Value)) {
+					ok = false
+				}
+			case *ssa.UnOp:
+				if !follow(x) {
+					ok = false
+				}
+			case *ssa.Store:
+				if x.Val != v {
+					continue
+				}
+				if al := localAlloc(x.Addr); al != nil && !e.allocEscapes(al) {
+					if !follow(al) {
+						ok = false
+					}
+					continue
+				}
+				esc(x)
+			case *ssa.MapUpdate:
+				if mm, isMake := x.Map.(*ssa.MakeMap); isMake {
+					if !follow(mm) {
+						ok = false
+					}
+					continue
+				}
+				esc(x)
+			case *ssa.Return, *ssa.Send, *ssa.MakeClosure, *ssa.Go, *ssa.Defer, *ssa.Panic:
+				esc(x)
+			case *ssa.Call:
+				cal := x.Call.StaticCallee()
+				if cal != nil && e.p.IsRepoFunc(cal) && !strings.HasPrefix(pkgPathOf(cal), load.PkgHTML) && cal.Signature.Results().Len() > 0 {
+					if !follow(x) {
+						ok = false
+					}
+					for _, a := range x.Call.Args {
+						if seen[a] {
+							continue
+						}
+						if _, isNode := nodeType(su.Strip(a).Type()); isNode {
+							continue
+						}
+						switch a.Type().Underlying().(type) {
+						case *types.Pointer, *types.Map, *types.Slice, *types.Interface:
+							if _, isK := a.(*ssa.Const); !isK {
+								if !follow(a) {
+									ok = false
+								}
+							}
+						}
+					}
+					continue
+				}
+				if cal != nil && !e.p.IsRepoFunc(cal) {
+					n := cal.Name()
+					if strings.HasPrefix(n, "Fprint") || strings.HasPrefix(n, "Write") || cal.Signature.Results().Len() == 0 {
+						esc(x)
+						continue
+					}
+					if !follow(x) {
+						ok = false
+					}
+					continue
+				}
+				if _, isB := x.Call.Value.(*ssa.Builtin); isB {
+					if !follow(x) {
+						ok = false
+					}
+					continue
+				}
+				// a component constructor of package html / html/core wraps the text: protected here, or downstream
+				if cal != nil && cal.Signature.Results().Len() == 1 && strings.HasPrefix(pkgPathOf(cal), load.PkgHTML) {
+					if _, isPtr := cal.Signature.Results().At(0).Type().Underlying().(*types.Pointer); isPtr {
+						nEsc++
+						if guard(x) {
+							continue
+						}
+						nEsc--
+						if !follow(x) {
+							ok = false
+						}
+						continue
+					}
+				}
+				esc(x)
+			}
+		}
+		return ok
+	}
+	res := follow(v)
+	return res, nEsc
 }
 
 // sameFn: the place where the test must hold is the use (ins) when the intermediate step is in the same function
@@ -1176,6 +1446,50 @@ func C17(p *load.Prog, r *oblig.Run) {
 		}
 	}
 	// first pass registers the preconditions that are used, then solve, then decide
+	// counters of living people: x++ executed only when some individual is living reveals how many there are
+	// (the per-letter "N individuals are hidden" row); treated like other personal data: protected in hide mode
+	type counter struct {
+		ins  *ssa.BinOp
+		node ssa.Value
+	}
+	var counters []counter
+	for _, fn := range fns {
+		for _, b := range fn.Blocks {
+			iff, ok := b.Instrs[len(b.Instrs)-1].(*ssa.If)
+			if !ok {
+				continue
+			}
+			c, ok := iff.Cond.(*ssa.Call)
+			if !ok || c.Call.StaticCallee() != e.isLiving || len(c.Call.Args) != 1 {
+				continue
+			}
+			ts := b.Succs[0]
+			if len(ts.Preds) != 1 {
+				continue
+			}
+			for _, b2 := range fn.Blocks {
+				if !(b2 == ts || ts.Dominates(b2)) {
+					continue
+				}
+				for _, ins := range b2.Instrs {
+					bo, ok := ins.(*ssa.BinOp)
+					if !ok || bo.Op != token.ADD {
+						continue
+					}
+					if bt, isB := bo.Type().Underlying().(*types.Basic); !isB || bt.Info()&types.IsInteger == 0 {
+						continue
+					}
+					_, xphi := bo.X.(*ssa.Phi)
+					k, isK := su.ConstInt(bo.Y)
+					if xphi && isK && k > 0 {
+						counters = append(counters, counter{bo, c.Call.Args[0]})
+					}
+				}
+			}
+		}
+	}
+	counterBad := map[*ssa.BinOp]string{}
+	counterEsc := map[*ssa.BinOp]int{}
 	unsafe := map[ssa.CallInstruction]string{}
 	catOf := map[ssa.CallInstruction]string{}
 	safeWhy := map[ssa.CallInstruction]string{}
@@ -1186,12 +1500,28 @@ func C17(p *load.Prog, r *oblig.Run) {
 		for _, rd := range reads {
 			if rd.cat == mode {
 				e.safe(rd.node, rd.site, 0)
-				for _, x := range e.escapePoints(rd.site.(ssa.Value)) {
-					e.safe(rd.node, x, 0)
-				}
+				e.flowProtected(rd.site.(ssa.Value), func(x ssa.Instruction) bool {
+					e.safe(rd.node, x, 0) // registers the preconditions used at this point
+					return false          // explore everything
+				})
+			}
+		}
+		if mode == "data" {
+			for _, ct := range counters {
+				e.flowProtected(ct.ins, func(x ssa.Instruction) bool { e.visibilityGuarded(x); return false })
 			}
 		}
 		e.solvePre()
+		if mode == "data" {
+			for _, ct := range counters {
+				e.guardMemo = map[string]bool{}
+				all, nesc := e.flowProtected(ct.ins, func(x ssa.Instruction) bool { return e.visibilityGuarded(x) })
+				counterEsc[ct.ins] = nesc
+				if !all {
+					counterBad[ct.ins] = "the count leaves the function at a point that is reached in hide mode"
+				}
+			}
+		}
 		for _, rd := range reads {
 			if rd.cat != mode {
 				continue
@@ -1201,21 +1531,16 @@ func C17(p *load.Prog, r *oblig.Run) {
 			ok, why := e.safe(rd.node, rd.site, 0)
 			if !ok {
 				// read first, test later: protected when every point where the text leaves the function is protected
-				esc := e.escapePoints(rd.site.(ssa.Value))
-				all := true
-				for _, x := range esc {
+				all, nesc := e.flowProtected(rd.site.(ssa.Value), func(x ssa.Instruction) bool {
 					ok2, w2 := e.safe(rd.node, x, 0)
 					if os.Getenv("C17_ESC") != "" && strings.Contains(p.Pos(rd.site.Pos()), os.Getenv("C17_ESC")) {
 						fmt.Println("ESC", p.Pos(rd.site.Pos()), "->", p.Pos(x.Pos()), x, ok2, w2)
 					}
-					if !ok2 {
-						all = false
-						break
-					}
-				}
+					return ok2
+				})
 				if all {
-					ok, why = true, fmt.Sprintf("read before the test, but each of the %d points where its text leaves the function is protected", len(esc))
-					if len(esc) == 0 {
+					ok, why = true, fmt.Sprintf("read before the test, but each of the %d points where its text leaves the function is protected", nesc)
+					if nesc == 0 {
 						why = "its text never leaves the function (it is only compared)"
 					}
 				}
@@ -1338,9 +1663,26 @@ func C17(p *load.Prog, r *oblig.Run) {
 		o.Fail("text read from a possibly living person's record reaches the published site in hide/placeholder mode: the read is not protected ("+why+")",
 			append([]string{"reaches:"}, sinks...)...)
 	}
+	cord := map[string]int{}
+	for _, ct := range counters {
+		key := "count of living individuals in " + load.FuncName(ct.ins.Parent())
+		cord[key]++
+		if cord[key] > 1 {
+			key = fmt.Sprintf("%s #%d", key, cord[key])
+		}
+		o := r.Add("R17.a", key, p.Pos(ct.ins.Pos()), "counter incremented only for living individuals (reveals how many there are; must be protected in hide mode)")
+		if why, bad := counterBad[ct.ins]; bad {
+			o.Fail("a number that counts living individuals is published in hide mode: " + why + " - the page then depends on living people's data (e.g. how many of them share a surname letter)")
+		} else if counterEsc[ct.ins] == 0 {
+			o.OK("the count never leaves the function")
+		} else {
+			o.OK(fmt.Sprintf("each of the %d points where the count leaves the function is reached only when the mode is not hide", counterEsc[ct.ins]))
+		}
+	}
 	if len(e.capped) > 0 {
 		r.Note("path enumeration capped in: %s", strings.Join(e.capped, ", "))
 	}
+	c17Visibility(p, r, e)
 	c17Living(p, r, e.isLiving)
 }
 
